@@ -119,11 +119,59 @@ def pieces(seq):
     return out, gaps
 
 
+def make_strict(r, seq):
+    """rewrite a chained pattern so that no listed chain finding covers it: non-tail pieces get a fixed length, non-head
+    pieces lose their alternations (the strict oracle then applies to the chain logic itself)"""
+    ps, _ = pieces(seq)
+    if len(ps) < 2:
+        return seq
+
+    def fix_len(items):
+        out = []
+        for it in items:
+            if it[0] == "j" and it[2] is not None and it[1] != it[2] and not (it[1] > 200 or it[2] > 200):
+                out.append(("j", max(it[1], 1) if it[1] == 0 and it[2] >= 1 else it[1], None, None))
+                v = out[-1][1]
+                out[-1] = ("j", v, v, "nm")
+            elif it[0] == "alt":
+                lens = set()
+                for b in it[1]:
+                    ls = len_set(b)
+                    lens |= ls if ls else {None}
+                out.append(it if len(lens) == 1 and None not in lens else ("alt", [fix_len(it[1][0])]))
+            else:
+                out.append(it)
+        return out
+
+    def no_alt(items):
+        out = []
+        for it in items:
+            if it[0] == "alt":
+                out += no_alt(fix_len(it[1][0]))
+            else:
+                out.append(it)
+        return out
+    # walk the top-level sequence piece by piece (chaining jumps stay as they are)
+    out, cur, idx = [], [], 0
+    flush = lambda cur, idx, last: (no_alt(fix_len(cur)) if (idx > 0 and not last) else fix_len(cur) if not last else no_alt(cur) if idx > 0 else cur)
+    i = 0
+    bounds = []
+    for k, it in enumerate(seq):
+        if it[0] == "j" and (it[2] is None or it[1] > 200 or it[2] > 200) and cur and k + 1 < len(seq):
+            out += flush(cur, idx, False); out.append(it); cur = []; idx += 1
+        else:
+            cur.append(it)
+    out += flush(cur, idx, True)
+    return out
+
+
 def gen_pattern(r):
     for _ in range(50):
         bigs = [r.choice([0, 0, 0, 1, 1, 2, 3])]
         n = r.choice([1, 2, 2, 3, 3, 4, 4, 5, 6, 7, 8, 10])
         seq = gen_seq(r, n, 0, False, bigs)
+        if r.random() < 0.55:
+            seq = make_strict(r, seq)
         ps, _ = pieces(seq)
         def wide_jumps(p):
             n = 0
@@ -408,6 +456,10 @@ def run(tier, replay=None):
         hist["pieces"][str(np_)] = hist["pieces"].get(str(np_), 0) + 1
         hist["chained"] += int(any("C" in part.split(":", 1)[1] for part in (d.get("info") or "").split("/")[1:] if ":" in part))
         hist["alt"] += int(bool(meta.get("alt")))
+        if np_ > 1 and meta.get("seq") is not None:
+            pz, _ = pieces(meta["seq"])
+            strict = not any(variable_len(p) for p in pz[:-1]) and not any(variable_len(p) or has_alt(p) for p in pz[1:])
+            hist["chained_strict"] = hist.get("chained_strict", 0) + int(strict)
         hist["with_matches"] += int(bool(ms))
         hist["spec_offsets"] += len(spec.get("a", {}))
         hist["reported"] += len(ms)
